@@ -139,6 +139,10 @@ SendFails ==
   /\ "sendfail" \in Faults /\ sendOK /\ sendOK' = FALSE
   /\ UNCHANGED <<op, nextID, slot, watch, rdpc, rderr, dq, nrecv, peerClosed, ch, err, cbk, closepc, onstop, oncancel, sent, blocked>>
 
+SendHeals ==   \* the failure was transient: a failed Send does not stop the client, later ones succeed again
+  /\ "sendheal" \in Faults /\ ~sendOK /\ sendOK' = TRUE
+  /\ UNCHANGED <<op, nextID, slot, watch, rdpc, rderr, dq, nrecv, peerClosed, ch, err, cbk, closepc, onstop, oncancel, sent, blocked>>
+
 (***************************************************************************)
 (* stopLocked(cause): close the channel, cancel callbacks and every        *)
 (* pending request's context, record the cause; OnStop runs after unlock.  *)
@@ -232,6 +236,7 @@ Next ==
   \/ PeerClose
   \/ RecvError
   \/ SendFails
+  \/ SendHeals
   \/ RdFail
   \/ Close
   \/ CloseReturn
